@@ -27,7 +27,7 @@ COMPONENTS = {"real": ["serialiser / deserialiser / descriptor table (output.c, 
 ASSUMPTIONS = ["callbacks are re-attached after every restore (the property's proviso)",
                "struct view X compares every scalar member of struct reb_simulation taken from DWARF except the transient members listed in c05.TRANSIENT",
                "save points inside integrate(): only the trajectory at the end of that integrate call is compared (caller-side loop state is not part of any snapshot)"]
-PROBES = ["live_arrays_compared", "saved_unsynchronized", "saved_after_merge", "saved_with_variational", "saved_in_encounter", "transport_file", "transport_bytes", "transport_pickle",
+PROBES = ["live_arrays_compared", "saved_unsynchronized", "saved_after_merge", "saved_with_variational", "saved_in_encounter", "transport_file", "transport_bytes", "transport_pickle", "transport_archive_index",
           "transport_copy", "transport_archive_delta", "transport_auto_snapshot", "continued_steps"]
 
 # members of struct reb_simulation that are scratch / bookkeeping recomputed by the library and legitimately
@@ -52,7 +52,7 @@ def transient(path):
 SETS = [("softening", [0.0, 1e-3]), ("exit_max_distance", [0.0, 500.0]), ("testparticle_type", [0, 1]), ("track_energy_offset", [0, 1]),
         ("collision_resolve_keep_sorted", [0, 1]), ("rand_seed", [1, 77]), ("opening_angle2", [0.25, 0.5]), ("python_unit_l", [0, 7]),
         ("exact_finish_time", [0, 1]), ("minimum_collision_velocity", [0.0, 1e-4]), ("exit_min_distance", [0.0, 1e-6])]
-TRANSPORTS = ["file", "bytes", "pickle", "copy", "archive", "archive"]
+TRANSPORTS = ["file", "bytes", "pickle", "copy", "archive", "archive", "archive_index"]
 
 
 def generate(rng, tier, index):
@@ -206,6 +206,11 @@ def execute(case, ctx):
             elif via == "archive":
                 O.save_to_file(apath)
                 R = rebound.Simulation(apath)
+            elif via == "archive_index":
+                O.save_to_file(apath)
+                sa_ = rebound.Simulationarchive(apath)
+                R = sa_[-1]             # through the Python wrapper's __getitem__
+                del sa_
             else:
                 raise ValueError(via)
             simgen.attach_callbacks(rebound, rb, R, cfg)
